@@ -1,4 +1,10 @@
 import PyodaModel.DriverLoop
 import PyodaModel.TimeOfDay
+import PyodaModel.TimeOfDay.Full
+import PyodaModel.Calendar
+import PyodaModel.DateArith
 
-def main : IO Unit := Pyoda.runDriver [Pyoda.TimeOfDay.handle]
+-- `Calendar.handle` / `DateArith.handle` serve `cal.wf c` and `date.wf c` (evaluated hypotheses `C09.Evaluated` of
+-- the full-period theorems of C10)
+def main : IO Unit := Pyoda.runDriver
+  [Pyoda.TimeOfDay.handle, Pyoda.TimeOfDay.handleFull, Pyoda.Calendar.handle, Pyoda.DateArith.handle]
